@@ -44,6 +44,9 @@ SupersededFrom(l, i) ==
 Superseded(l) == SupersededFrom(l, 1)
 
 (* filter predicates: [kind, ks (sequence of key ranks), ts (sequence of types)] *)
+(* A filter is a VALUE fixed when it is constructed: the keys it names are those *)
+(* passed to NewAllowKeysFilter / NewDenyKeysFilter, whatever the caller does to *)
+(* the slice it passed them in afterwards (the harness overwrites that slice).   *)
 (*   "nil"  no filter given          "all"/"none" constant predicates          *)
 (*   "allow"/"deny" NewAllowKeysFilter / NewDenyKeysFilter over ks              *)
 (*   "type" keeps the attributes whose value type is in ts                      *)
